@@ -162,6 +162,16 @@ def c06_cases(tier):
         out.append((f"AnyFrom({args})", ('den', s)))
         if thorough or t[0] <= t[1]:
             out.append((f"AnyButFrom({args})", ('den', den.compl(s))))
+    # characters that Unicode normalisation would replace by another character (singleton decompositions, composition exclusions)
+    for ch in ('\u212a', '\u2126', '\u212b', '\u0340', '\u0341', '\u0958', '\u037e', '\uf900', '\u1e9b', '\ufb01', '\u00e9', '\u0301'):
+        s = den.from_chars([ch])
+        out.append((f"AnyFrom({lit(ch)})", ('den', s)))
+        out.append((f"AnyButFrom({lit(ch)})", ('den', den.compl(s))))
+        out.append((f"AnyFrom({lit(ch)}, 'K')", ('den', den.from_chars([ch, 'K']))))
+        out.append((f"AnyBetween({lit(ch)}, '\\U0010ffff')", ('den', den.norm([(ord(ch), 0x10ffff)]))))
+    for two in ("'e\\u0301'", "'\\u0915\\u093c'", "'a\\u0300'"):
+        out.append((f"AnyFrom({two})", ('raise', ITYPE)))
+        out.append((f"AnyButFrom('a', {two})", ('raise', ITYPE)))
     # E3 tokens as arguments
     for name, ch in TOKENS.items():
         out.append((f"AnyFrom({name}())", ('den', den.from_chars([ch]))))
